@@ -49,7 +49,7 @@ Check C19_canonical : forall s o, screen_ok s -> obs s = Ok o ->
   attributes_formatted_t s = attributes_formatted_t (screen_of_obs o).
 Print Assumptions C19_canonical.
 Check C19_histories : forall p ops1 ops2 p1 p2 o,
-  parser_ok p -> Forall op_ok ops1 -> Forall op_ok ops2 ->
+  parser_ok p -> screen_wf (scr p) -> Forall op_ok ops1 -> Forall op_ok ops2 ->
   run p ops1 = Ok p1 -> run p ops2 = Ok p2 ->
   obs (scr p1) = Ok o -> obs (scr p2) = Ok o ->
   contents_formatted_t (scr p1) = contents_formatted_t (scr p2) /\
@@ -65,26 +65,26 @@ Print Assumptions C19_histories.
 Check C19_row_selfdiff : forall r start width rowi wrapping pr pc a,
   row_diff r r start width rowi wrapping wrapping (pr, pc) a = Ok ([], (pr, pc), a).
 Print Assumptions C19_row_selfdiff.
-Check C19_selfdiff : forall s, screen_ok s ->
+Check C19_selfdiff : forall s, screen_ok s -> screen_wf s ->
   contents_diff_t s s = Ok [] /\
   state_diff_t s s = Ok [] /\
   input_mode_diff_t s s = [] /\
   (forall start width, rows_diff_t s s start width = Ok (repeatN [] (grows (cur s)))).
 Print Assumptions C19_selfdiff.
-Check C19_selfdiff_bytes : forall s, screen_ok s ->
+Check C19_selfdiff_bytes : forall s, screen_ok s -> screen_wf s ->
   res_map ser_all (contents_diff_t s s) = Ok [] /\
   res_map ser_all (state_diff_t s s) = Ok [] /\
   ser_all (input_mode_diff_t s s) = [] /\
   (forall start width, res_map (map ser_all) (rows_diff_t s s start width) = Ok (repeatN [] (grows (cur s)))).
 Print Assumptions C19_selfdiff_bytes.
-Check C19_obsdiff : forall s1 s2 o, screen_ok s1 -> screen_ok s2 -> obs s1 = Ok o -> obs s2 = Ok o ->
+Check C19_obsdiff : forall s1 s2 o, screen_ok s1 -> screen_wf s1 -> screen_ok s2 -> obs s1 = Ok o -> obs s2 = Ok o ->
   contents_diff_t s1 s2 = Ok [] /\
   state_diff_t s1 s2 = Ok [] /\
   input_mode_diff_t s1 s2 = [] /\
   (forall start width, rows_diff_t s1 s2 start width = Ok (repeatN [] (grows (cur s1)))).
 Print Assumptions C19_obsdiff.
 Check C19_obsdiff_minimal : forall s1 s2 o, obs s1 = Ok o -> obs s2 = Ok o ->
-  (screen_ok s1 -> contents_diff_t s1 s2 = Ok [] /\ state_diff_t s1 s2 = Ok []) /\
+  (screen_ok s1 -> screen_wf s1 -> contents_diff_t s1 s2 = Ok [] /\ state_diff_t s1 s2 = Ok []) /\
   input_mode_diff_t s1 s2 = [] /\
   (forall start width, rows_diff_t s1 s2 start width = Ok (repeatN [] (len (o_vis o)))).
 Print Assumptions C19_obsdiff_minimal.
